@@ -53,6 +53,7 @@ func c07SeqJob(tier string) *SeqJob {
 				childWant := int64(0)
 				next := int64(1)
 				var closedLog []string
+				usedSpell := map[string]bool{}
 				for _, op := range hist {
 					var what, lbl string
 					fmt.Sscanf(alphabet[op], "%s %s", &what, &lbl)
@@ -75,6 +76,7 @@ func c07SeqJob(tier string) *SeqJob {
 					}
 					switch what {
 					case "get":
+						usedSpell[lbl] = true
 						s := root.Tagged(cloneTags(sp.tags))
 						if tally.VerifIsNoop(s) {
 							return "obtained-scope-inert", fmt.Sprintf("%v: Tagged(%s) on a live root returned the inert scope", histLabels(alphabet, hist), tagString(sp.tags))
@@ -139,6 +141,10 @@ func c07SeqJob(tier string) *SeqJob {
 				}
 				for l, ob := range handle {
 					ks = append(ks, fmt.Sprintf("h%s:%v:%v", l, ob.closed, registered[ob.ident] == ob))
+				}
+				// the registry remembers raw keys: which spellings have been used matters to the implementation
+				for l := range usedSpell {
+					ks = append(ks, "used"+l)
 				}
 				sort.Strings(ks)
 				key = fmt.Sprint(cached, shards, ks, want, childWant > 0)
